@@ -89,6 +89,15 @@ CLAIMS = {
              "queue-time parse errors always set the abort flag. Does not decide isolation against other connections.",
         technique="dominance by state-test edges, path search with exempt edges per enum-dispatch arm, who-may-mutate scan of the snapshot list",
         ref="DESIGN.md §3 C05"),
+    "C15": dict(
+        text="Decides the totality/boundedness clauses of C15 by a taint analysis of wire-derived integers (str::parse, "
+             "parse_usize_fast) in both RESP decoders and the fast-path recognisers: R15.1 signed lengths are compared with zero "
+             "before a sign-losing cast; R15.2 allocations sized by a tainted value are clamped to / bounded by the input length; "
+             "R15.3 no unchecked +/* on an unbounded tainted value; R15.4 slice ranges built from tainted values are dominated by a "
+             "comparison against the input length; R15.5 Incomplete-sentinel discipline incl. a completeness guard that covers "
+             "payload+CRLF; R15.6 decimal scratch buffers hold i64::MIN. Does not decide prefix-stability or round-trips by value.",
+        technique="intra-procedural forward taint over MIR with root tracking and guard-based sanitisation (dominating comparisons)",
+        ref="DESIGN.md §3 C15"),
 }
 
 PENDING_REASON = "check not built yet (build in progress; DESIGN.md §3 lists the planned structural clauses)"
